@@ -25,15 +25,16 @@ VARIABLES
   gst,      \* node state reconstructed from Apply events
   gstore,   \* Seq of [id, seen] from Save events
   owed,     \* peers whose block was seen in a pair the spec refuses and who have not been stopped since
+  failH,    \* heights of the refused pairs seen at the current pool.height (see StepStopPeer)
   hand,     \* [done, h, honestInPool] from the Handover event
   viol, drift
 
-vars == <<l, tT, honest, gp, blocks, gst, gstore, owed, hand, viol, drift>>
+vars == <<l, tT, honest, gp, blocks, gst, gstore, owed, failH, hand, viol, drift>>
 
 EmptyPool == [h |-> 1, req |-> << >>, peers |-> << >>, maxH |-> 0]
 Init ==
   /\ l = 1 /\ tT = 0 /\ honest = {} /\ gp = EmptyPool /\ blocks = << >>
-  /\ gst = [h |-> 0, lastID |-> NoBID] /\ gstore = << >> /\ owed = {}
+  /\ gst = [h |-> 0, lastID |-> NoBID] /\ gstore = << >> /\ owed = {} /\ failH = {}
   /\ hand = [done |-> FALSE, h |-> 0, honestInPool |-> FALSE]
   /\ viol = {} /\ drift = {}
 
@@ -103,36 +104,42 @@ V(inv, class) == [l |-> l, inv |-> inv, class |-> class]
 Install(e, expected, tbl, st, extraDrift, extraViol, stoppedNow) ==
   LET lp == PoolOfLog(e.pool, tbl)
       alive == Range(e.pool.sw)
-      newOwed == IF PairRefused(lp, st) THEN FailPeers(lp) \cap alive ELSE {}
+      \* (after the hand-over the pool is stopped: nothing is decided any more)
+      newOwed == IF PairRefused(lp, st) /\ ~hand.done THEN FailPeers(lp) \cap alive ELSE {}
   IN /\ gp' = lp
      /\ drift' = drift \cup extraDrift
-                 \cup FailIf(expected # lp, D("pool after " \o e.ev \o " differs from the spec's"))
+                 \cup FailIf(lp \notin expected, D("pool after " \o e.ev \o " differs from the spec's"))
      /\ viol' = viol \cup extraViol
-     /\ owed' = ((owed \cap alive) \ stoppedNow) \cup newOwed
+     /\ owed' = (owed \ stoppedNow) \cup newOwed
+     /\ failH' = (IF PairRefused(lp, st) THEN {lp.h, lp.h + 1} ELSE {}) \cup {h \in failH : h >= lp.h}
 
 StepReset(e) ==
   /\ tT' = e.T
   /\ honest' = {e.peers[i].p : i \in {j \in 1..Len(e.peers) : e.peers[j].honest}}
   /\ gp' = EmptyPool /\ blocks' = << >>
-  /\ gst' = [h |-> 0, lastID |-> NoBID] /\ gstore' = << >> /\ owed' = {}
+  /\ gst' = [h |-> 0, lastID |-> NoBID] /\ gstore' = << >> /\ owed' = {} /\ failH' = {}
   /\ hand' = [done |-> FALSE, h |-> 0, honestInPool |-> FALSE]
   /\ UNCHANGED <<viol, drift>>
 
 StepJoin(e) ==
-  /\ Install(e, Infer(gp, PoolOfLog(e.pool, blocks)), blocks, gst, {}, {}, {e.p})
+  /\ Install(e, {Infer(gp, PoolOfLog(e.pool, blocks))}, blocks, gst, {}, {}, {e.p})
   /\ UNCHANGED <<tT, honest, blocks, gst, gstore, hand>>
 
 StepStatus(e) ==
   LET lp == PoolOfLog(e.pool, blocks)
       pre == PoolRemoveAll(gp, DOMAIN gp.peers \ (DOMAIN lp.peers \cup {e.p}))
-  IN /\ Install(e, Infer(SetPeerRange(pre, e.p, e.base, e.height), lp), blocks, gst, {}, {}, {})
+  IN /\ Install(e, {Infer(SetPeerRange(pre, e.p, e.base, e.height), lp)}, blocks, gst, {}, {}, {})
      /\ UNCHANGED <<tT, honest, blocks, gst, gstore, hand>>
 
 StepRequest(e) ==
   LET lp == PoolOfLog(e.pool, blocks)
       x  == Infer(gp, lp)
-  IN /\ Install(e, x, blocks, gst,
-                FailIf(~(e.h \in ReqHeights(x) /\ x.req[e.h].peer = e.p) /\ e.p \in DOMAIN lp.peers,
+      \* (a requester may already have been reset again when its request reaches the peer: a redo
+      \* queued for an earlier incarnation of the same peer id -- redoCh -- is honoured late)
+  IN /\ Install(e, {x}, blocks, gst,
+                FailIf(e.p \in DOMAIN lp.peers
+                       /\ ~(e.h \in ReqHeights(x) /\ (x.req[e.h].peer = e.p
+                                                       \/ (x.req[e.h].peer = Nil /\ CanPick(x, e.h, e.p)))),
                        D("Request to a peer the spec's requester did not pick")), {}, {})
      /\ UNCHANGED <<tT, honest, blocks, gst, gstore, hand>>
 
@@ -153,7 +160,7 @@ StepResponse(e) ==
       \* the real validateBlock on the block against the canonical state before it
       vbSpec == ValidateBlock([h |-> b.h - 1, lastID |-> IF b.h = 1 THEN NoBID ELSE CanonBID(b.h - 1)], VAt(b.h - 1), b)
   IN /\ blocks' = tbl
-     /\ Install(e, IF e.p \in DOMAIN lp.peers \/ ~r.set THEN Infer(r.pool, lp) ELSE lp, tbl, gst,
+     /\ Install(e, {Infer(r.pool, lp)}, tbl, gst,
                 FailIf(b # gen, D("block built by the harness is not the spec's block of that kind"))
                 \cup FailIf(e.vb # vbSpec, D("real ValidateBlock disagrees with the spec's")), {}, {})
      /\ UNCHANGED <<tT, honest, gst, gstore, hand>>
@@ -162,14 +169,19 @@ StepPlain(e) ==   \* NoBlock, Timeout
   LET lp == PoolOfLog(e.pool, blocks)
       x  == Infer(gp, lp)
       y  == IF e.ev = "Timeout" /\ e.p \in DOMAIN x.peers THEN [x EXCEPT !.peers[e.p].to = TRUE] ELSE x
-  IN /\ Install(e, y, blocks, gst, {}, {}, {})
+  IN /\ Install(e, {y}, blocks, gst, {}, {}, {})
      /\ UNCHANGED <<tT, honest, blocks, gst, gstore, hand>>
 
 StepStopPeer(e) ==
   LET lp == PoolOfLog(e.pool, blocks)
-      x  == Infer(PoolRemove(gp, e.p), lp)
+      \* the stub reactor that reports the stop may run before or after BlockchainReactor.RemovePeer
+      x  == {Infer(PoolRemove(gp, e.p), lp), Infer(gp, lp)}
+      \* RedoRace (deviation of the code, harmless for the property): RedoRequest reads the
+      \* requester's peer id when it runs, not when the pair was peeked; a requester that was
+      \* reset and has re-picked in between gets its NEW peer stopped
+      race == failH # {}
   IN /\ Install(e, x, blocks, gst,
-                FailIf(e.why = "validation" /\ e.p \notin owed,
+                FailIf(e.why = "validation" /\ e.p \notin owed /\ ~race,
                        D("peer stopped for a validation error without a pair the spec refuses")), {}, {e.p})
      /\ UNCHANGED <<tT, honest, blocks, gst, gstore, hand>>
 
@@ -182,7 +194,7 @@ StepSave(e) ==
       valid == stOK /\ ValidateBlock(gst, VAt(e.h - 1), b)
       cls   == b.uid \o ":" \o Concat(e.seen.slots)
   IN /\ gstore' = Append(gstore, [blk |-> b, seen |-> e.seen])
-     /\ Install(e, x, blocks, gst,
+     /\ Install(e, {x}, blocks, gst,
                 FailIf(~(VerifyLight(pows, BID(b), e.h, e.seen) /\ VerifySeen(pows, BID(b), e.h, e.seen) /\ valid),
                        D("code saved a block the spec's TrySync refuses"))
                 \cup FailIf(pows # VAt(e.h), D("node state prescribes another validator set than the chain"))
@@ -195,7 +207,7 @@ StepSave(e) ==
 StepApply(e) ==
   LET lp == PoolOfLog(e.pool, blocks) IN
   /\ gst' = [h |-> e.h, lastID |-> [hash |-> e.id, psh |-> e.uid]]
-  /\ Install(e, Infer(gp, lp), blocks, gst', {},
+  /\ Install(e, {Infer(gp, lp)}, blocks, gst', {},
              FailIf(e.id # CanonId(e.h) \/ e.uid # CanonId(e.h), V("OnlyCanonical", "applied:" \o e.uid))
              \cup FailIf(~(e.h <= Len(gstore) /\ gstore[e.h].blk.id = e.id /\ gstore[e.h].blk.uid = e.uid) \/ e.h # gst.h + 1,
                          V("AppliedIsStored", "applied:" \o e.uid)), {})
@@ -208,7 +220,7 @@ StepHandover(e) ==
   LET lp == PoolOfLog(e.pool, blocks)
       x  == Infer(gp, lp)
   IN /\ hand' = [done |-> TRUE, h |-> e.h, honestInPool |-> (DOMAIN lp.peers \cap honest) # {}]
-     /\ Install(e, x, blocks, gst,
+     /\ Install(e, {x}, blocks, gst,
                 FailIf(e.panic # PanicSpec(e), D("hand-over panic differs from the spec's prediction"))
                 \cup FailIf(~IsCaughtUp(lp), D("hand-over although the spec's IsCaughtUp is false"))
                 \cup FailIf(e.h # gst.h, D("hand-over state height differs from the applied height")),
@@ -217,7 +229,7 @@ StepHandover(e) ==
 
 StepProbe(e) ==
   LET lp == PoolOfLog(e.pool, blocks) IN
-  /\ Install(e, Infer(gp, lp), blocks, gst,
+  /\ Install(e, {Infer(gp, lp)}, blocks, gst,
              FailIf(e.panic # PanicSpec(e), D("restart panic differs from the spec's prediction")),
              FailIf(e.panic, V("CleanRestart", "restart:" \o Concat(e.seen.slots))), {})
   /\ UNCHANGED <<tT, honest, blocks, gst, gstore, hand>>
@@ -226,13 +238,13 @@ StepEnd(e) ==
   LET lp == PoolOfLog(e.pool, blocks)
       alive == Range(e.pool.sw)
       judged == e.stable /\ ~e.nofill
-  IN /\ Install(e, Infer(gp, lp), blocks, gst,
+  IN /\ Install(e, {Infer(gp, lp)}, blocks, gst,
                 FailIf(Len(e.store) # Len(gstore) \/ \E h \in 1..Min(Len(e.store), Len(gstore)) :
                            e.store[h].id # gstore[h].blk.id \/ e.store[h].uid # gstore[h].blk.uid \/ e.store[h].seen # gstore[h].seen,
                        D("final store differs from the Save events")),
                 \* liars dropped: nobody whose block sat in a refused pair is still connected,
                 \* and no refused pair is left lying in the pool
-                FailIf(judged /\ ((owed \cap alive) # {} \/ PairRefused(lp, gst)), V("LiarsDropped", IF e.pairStuck THEN "stuck" ELSE "connected"))
+                FailIf(judged /\ ((owed \cap alive) # {} \/ (PairRefused(lp, gst) /\ ~hand.done)), V("LiarsDropped", IF e.pairStuck THEN "stuck" ELSE "connected"))
                 \* reaches the tip with an honest peer
                 \cup FailIf(judged /\ e.hasHonest /\ ~e.handed, V("ReachesTip", IF e.stalled THEN "stalled" ELSE "nohandover"))
                 \cup FailIf(judged /\ e.hasHonest /\ e.handed /\ hand.honestInPool /\ hand.h < tT - 2, V("ReachesTip", "early"))
@@ -262,7 +274,7 @@ Finish ==
   /\ l = Len(Trace) + 1
   /\ WriteVerdict("verdict.json", Len(Trace), viol, drift)
   /\ l' = l + 1
-  /\ UNCHANGED <<tT, honest, gp, blocks, gst, gstore, owed, hand, viol, drift>>
+  /\ UNCHANGED <<tT, honest, gp, blocks, gst, gstore, owed, failH, hand, viol, drift>>
 
 Next == Step \/ Finish
 =============================================================================
